@@ -12,6 +12,7 @@ deviation on the model ($09 + $09).
 -/
 import SnesVerif.Cpu.Refine.Step4
 import SnesVerif.Cpu.Refine.Ops9b
+import SnesVerif.Cpu.Interrupt
 open Cpu Gen
 open Spec (Mode Mnem)
 set_option maxRecDepth 100000
@@ -80,6 +81,15 @@ theorem step_refines (v : Variant) (s : St) (hE : s.r.E = false) (hnd : ¬ Decim
   · rw [h2]
     show WDC.exec (abs s) mn md = WDC.exec (abs s) (Spec.decode (s.m.f (lin s.r.RK s.r.PC)).toNat).1 (Spec.decode (s.m.f (lin s.r.RK s.r.PC)).toNat).2
     rw [hd]
+
+/-- **C01 over the whole of `Step()`**: with the interrupt latch idle (any value other than the NMI / IRQ constants of the
+package — `interruptNone` or the zero value of a fresh CPU) the full `Step`, including its interrupt switch, executes
+exactly the WDC instruction.  A pending interrupt is not an instruction of the program and is outside C01. -/
+theorem stepFull_refines (v : Variant) (latch : Nat) (s : St) (hl : latch ≠ latchNMI v ∧ latch ≠ latchIRQ v)
+    (hE : s.r.E = false) (hnd : ¬ DecimalArith (abs s)) :
+    ∃ s', stepFull v latch s = some ((), s') ∧ abs s' = WDC.step (abs s) := by
+  rw [stepFull_idle v latch hl.1 hl.2]
+  exact step_refines v s hE hnd
 
 /-- **C01, decimal ADC/SBC (partial)**: the one case `step_refines` excludes.  Everything these instructions do not
 compute arithmetically still conforms: operand fetch and addressing (memory untouched, same PC advance), all other
